@@ -117,13 +117,32 @@ def fam_ang(case):
     O = oracle()
     viol = []
     grid = _geogrid(pts)
+    # a GeoGrid is also a Grid: on every other case the inherited Euclidean
+    # matrix (of the (lat, lon) coordinates) is requested FIRST on the same
+    # object, and once more afterwards - both kinds of distance must stay
+    # what they are, in either order
+    first_euclid = (sum(idx) % 2 == 0)
     try:
+        Ea = grid.euclidean_distance() if first_euclid else None
         D = grid.angular_distance()
         D2 = grid.distance()
+        Eb = grid.euclidean_distance()
     except Exception as ex:
         return {"viol": [V("GeoGrid.angular_distance:raises", repr(ex),
                            repr(ex), "a matrix")], "evals": 1, "sig": "raises"}
     ev = 0
+    Eexp = np.array([[G.euclid(p, q) for q in pts] for p in pts])
+    for nm, Eg in (("before", Ea), ("after", Eb)):
+        if Eg is None:
+            continue
+        ev += n * n
+        Eg = np.asarray(Eg, dtype=float)
+        if Eg.shape != (n, n) or np.any(
+                ~(np.abs(Eg - Eexp) <= G.euc_tol(Eexp, 2))):
+            viol.append(V("GeoGrid.euclidean_distance:value:%s-angular" % nm,
+                          "inherited Euclidean distance of the (lat, lon) "
+                          "coordinates requested %s angular_distance() on the "
+                          "same grid, points %s" % (nm, pts), Eg, Eexp))
     if D.shape != (n, n) or not np.array_equal(D, D2, equal_nan=True):
         viol.append(V("GeoGrid.distance:differs-from-angular_distance",
                       "", D2, D))
